@@ -502,7 +502,7 @@ class C17(Property):
                         'init': [rng.choice([-1.0, 0.5, 1.0, 2.0, -1.5]), rng.choice([1.5, -0.5, 0.25, 2.0])],
                         'pre_load': rng.random() < 0.5, 'viewer': rng.random() < 0.15,
                         'idx_problem': rng.random() < 0.25,
-                        'scaling': _scaling(rng, t) if rng.random() < 0.45 else {},
+                        'scaling': _scaling(rng, t) if rng.random() < (0.85 if t == 'flat_arr' else 0.45) else {},
                         'qseed': rng.randrange(1 << 30)})
         return out
 
